@@ -19,7 +19,12 @@ added later, ``(tree, rules, opts, perm, tree3)``:
            in ``r`` | ``r/d`` (exists iff the tree has ``d/``) | ``m`` (never
            exists) | ``f`` (a plain file next to ``r``) | ``q`` (a FIFO next
            to ``r``, created only for the cases that name it: part
-           "rule-fifo")
+           "rule-fifo"); extension filter = a tuple of extensions that the
+           driver hands to ``add_rule(file_exts=...)`` as a fresh list that
+           nobody touches again, unless the rule has a fourth member (parts
+           "filter-forms*"): ``(directory, filter, extras?, given)`` with
+           given = how the caller spells the filter and what the caller does
+           with that object afterwards, see FILTER_FORMS
 ``opts``   ``(nest, trim, nest_how, trim_how[, root_how])``; how = ``ctor``
            (value given to the constructor, nothing per call) or ``call``
            (constructor gets the *opposite* value, the call overrides it);
@@ -70,6 +75,38 @@ EXT_FILTERS = ((), ('.x',), ('.x', '.y'))
 HOWS = ('ctor', 'call')
 ROOT_HOWS = ('plain', 'slash', 'call', 'call-slash')
 MORPH_CHILD = 'b.x'                 # the file inside a file-turned-directory
+# how the caller hands the extension filter to add_rule(file_exts=...) and
+# what the caller does with that very object afterwards (fourth member of a
+# rule; parts "filter-forms*").  add_rule documents Iterable[str]: every
+# iterable of the extensions is the same filter, and the filter of a rule is
+# the one it was given - whatever the caller's object holds later
+FILTER_FORMS = {
+    'list': 'a fresh list, never touched again (every other part)',
+    'tuple': 'a tuple',
+    'set': 'a set, never touched again',
+    'frozenset': 'a frozenset',
+    'keys': 'the keys view of a dict (sized, iterable, re-iterable)',
+    'iter': 'a generator: one-shot, no len(), empty once consumed',
+    'list-cleared': 'a list that the caller clears right after add_rule',
+    'list-junked': 'a list whose content the caller replaces by [".zz"] '
+                   'right after add_rule',
+    'set-cleared': 'a set that the caller clears right after add_rule',
+    'set-junked': 'a set whose content the caller replaces by {".zz"} right '
+                  'after add_rule',
+    'recycled': 'ONE scratch list per case, cleared and refilled by the '
+                'caller before each add_rule that uses it (after the last '
+                'one it keeps that rule\'s extensions)',
+}
+JUNK_EXT = '.zz'                    # extension of no file of the alphabet
+# coarse class of a form (signature feature "filter_given")
+FILTER_CLASS = {'tuple': 'other_container', 'set': 'other_container',
+                'frozenset': 'other_container', 'keys': 'other_container',
+                'iter': 'one_shot', 'list-cleared': 'mutated_later',
+                'list-junked': 'mutated_later', 'set-cleared': 'mutated_later',
+                'set-junked': 'mutated_later', 'recycled': 'mutated_later'}
+# forms of a single rule ('recycled' alone is 'list' again)
+SINGLE_FORMS = ('tuple', 'set', 'frozenset', 'keys', 'iter', 'list-cleared',
+                'list-junked', 'set-cleared', 'set-junked')
 
 RULE = (
     'E3 bounded-exhaustive: EVERY prefix-closed set of at most N entries '
@@ -328,6 +365,32 @@ def rule_sets(family):
         q = (FIFO_RULE, (), 0)
         return ([(q,), ((FIFO_RULE, ('.x',), 1),)]
                 + [(r, q) for r in singles] + [(q, r) for r in singles])
+    if family in ('filter-forms', 'filter-pairs'):
+        # rules over an existing or possibly existing directory only (the
+        # filter of a missing / non-directory rule path is never consulted)
+        dir_rules = [r for r in singles if r[0] in ('r', 'r/d')]
+
+        def vacuous(rule):
+            # clearing an empty container changes nothing: that is the form
+            # 'list' / 'set' again
+            return rule[3].endswith('-cleared') and not rule[1]
+
+        one = [(r + (form,),) for r in dir_rules for form in SINGLE_FORMS]
+        pair_rules = [(a, b) for a in dir_rules if a[2] == 0
+                      for b in dir_rules if b[2] == 1]
+        if family == 'filter-forms':
+            # + every core pair with both filters in the one scratch list
+            out = one + [(a + ('recycled',), b + ('recycled',))
+                         for a, b in pair_rules]
+        else:
+            # every core pair x {both rules the same form, one rule any new
+            # form and the other a plain list}
+            combos = ([(f, f) for f in SINGLE_FORMS]
+                      + [(f, 'list') for f in SINGLE_FORMS]
+                      + [('list', f) for f in SINGLE_FORMS])
+            out = [(a + (fa,), b + (fb,)) for a, b in pair_rules
+                   for fa, fb in combos]
+        return [rs for rs in out if not any(map(vacuous, rs))]
     raise HarnessError(f'unknown rule family {family!r}')
 
 
@@ -1164,13 +1227,71 @@ def _norm_case(case):
     case = kernel.totuple(case)
     tree, rules, opts, perm = case[:4]
     tree3 = case[4] if len(case) > 4 else None
-    rules = tuple((r[0], tuple(r[1]), int(r[2])) for r in rules)
+    rules = tuple((r[0], tuple(r[1]), int(r[2]))
+                  + ((str(r[3]),) if len(r) > 3 else ()) for r in rules)
+    for r in rules:
+        if len(r) > 3 and r[3] not in FILTER_FORMS:
+            raise HarnessError(f'unknown filter form {r[3]!r}')
     root_how = str(opts[4]) if len(opts) > 4 else 'plain'
     if root_how not in ROOT_HOWS:
         raise HarnessError(f'unknown root spelling {root_how!r}')
     opts = (int(opts[0]), int(opts[1]), str(opts[2]), str(opts[3]), root_how)
     return (tuple(tree), rules, opts, int(perm),
             None if tree3 is None else tuple(tree3))
+
+
+def _give_filter(exts, form, scratch):
+    """The caller's side of ``add_rule(file_exts=...)``: the object handed
+    over and what the caller does with it right after add_rule returned
+    (None = nothing)."""
+    if form == 'list':
+        return list(exts), None
+    if form == 'tuple':
+        return tuple(exts), None
+    if form == 'set':
+        return set(exts), None
+    if form == 'frozenset':
+        return frozenset(exts), None
+    if form == 'keys':
+        return dict.fromkeys(exts).keys(), None
+    if form == 'iter':
+        return (e for e in exts), None
+    if form == 'recycled':
+        scratch.clear()
+        scratch.extend(exts)
+        return scratch, None
+    kind, fate = form.split('-')
+    obj = list(exts) if kind == 'list' else set(exts)
+
+    def after():
+        obj.clear()
+        if fate == 'junked':
+            (obj.append if kind == 'list' else obj.add)(JUNK_EXT)
+    return obj, after
+
+
+def _held_rules(rules, forms, which):
+    """The rules as they would read if the filter of every rule given in the
+    form ``which`` were whatever the caller's object yields when it is
+    looked at again at population time (a consumed generator: nothing)
+    instead of the extensions handed to add_rule.  Only used to tell whether
+    a case could show the difference at all (vacuity guard)."""
+    last = ()
+    for r, f in zip(rules, forms):
+        if f == 'recycled':
+            last = r[1]
+    out = []
+    for r, f in zip(rules, forms):
+        exts = r[1]
+        if f == which:
+            if f == 'recycled':
+                exts = last
+            elif f == 'iter' or f.endswith('-cleared'):
+                exts = ()
+            elif f.endswith('-junked'):
+                exts = (JUNK_EXT,)
+        out.append((r[0], exts, r[2]))
+    return tuple(out)
 
 
 def execute(case):
@@ -1180,6 +1301,10 @@ def execute(case):
     number of populate calls checked).
     """
     tree, rules, opts, perm, tree3 = _norm_case(case)
+    # the form in which the filter is given is the caller's business: the
+    # model and the oracle see the rules without it
+    forms = tuple(r[3] if len(r) > 3 else 'list' for r in rules)
+    rules = tuple(r[:3] for r in rules)
     nest, trim, nest_how, trim_how, root_how = opts
     root = os.path.join(_workdir(), 'case')
     tree_seq = [tree, tree] + ([tree3] if tree3 is not None else [])
@@ -1210,10 +1335,16 @@ def execute(case):
             ctor_root = spelled
         recorder = Recorder(root)
         populator = desper.DirectoryResourcePopulator(ctor_root, **ctor)
+        scratch = []            # the caller's one recycled list
+        given = []              # the caller keeps its objects alive
         for ri, (rdir, exts, extra) in enumerate(rules):
             args, kwargs = extras_of(ri, extra)
+            obj, after = _give_filter(exts, forms[ri], scratch)
+            given.append(obj)
             populator.add_rule(rdir, recorder.factory(ri), *args,
-                               file_exts=list(exts), **kwargs)
+                               file_exts=obj, **kwargs)
+            if after is not None:
+                after()
         m = desper.ResourceMap()
         backlink_nodes = 0
         for pops in range(1, len(tree_seq) + 1):
@@ -1260,6 +1391,24 @@ def execute(case):
             if v is not None:
                 main_v = v
                 break
+        new_forms = sorted({f for f in forms if f != 'list'})
+        if main_v is not None and new_forms:
+            main_v.features['filter_given'] = '+'.join(
+                sorted({FILTER_CLASS[f] for f in new_forms}))
+            main_v.detail += (' [extension filters given as '
+                              + ', '.join(forms) + ']')
+        if main_v is None and new_forms and not mod['raises']:
+            for form in new_forms:
+                if any(f == form and st == 'dir'
+                       for f, st in zip(forms, mod['status'])):
+                    hits['filter_given_as_' + form] = 1
+                if FILTER_CLASS[form] == 'other_container':
+                    continue
+                # could this case tell an implementation that looks at the
+                # caller's object again at population time?
+                held = model(tree, _held_rules(rules, forms, form), trim)
+                if held['per_rule'] != mod['per_rule']:
+                    hits['filter_alias_would_show_' + form] = 1
         if main_v is None:
             fl = mod['flags']
             if mod['rule_dirs'] and not mod['raises']:
@@ -1366,7 +1515,9 @@ def parts(tier):
                 'specials': ('full', 3, 'singles', 'ctor', 'specials'),
                 'specials-pairs': ('full', 2, 'core-pairs', 'ctor',
                                    'specials'),
-                'rule-fifo': ('full', 2, 'fifo', 'ctor', 'sorted')}
+                'rule-fifo': ('full', 2, 'fifo', 'ctor', 'sorted'),
+                'filter-forms': ('full', 2, 'filter-forms', 'ctor',
+                                 'sorted')}
     return {'mirror': ('mirror', 4, 'core', 'all'),
             'mirror-pairs': ('mirror', 3, 'other-pairs', 'all'),
             'backlinks': ('backlinks', 4, 'core', 'ctor'),
@@ -1374,7 +1525,10 @@ def parts(tier):
             'roots': ('full', 3, 'core', 'same', 'roots'),
             'retree': ('full', 3, 'core', 'same', 'retree'),
             'specials': ('full', 3, 'core', 'same', 'specials'),
-            'rule-fifo': ('full', 3, 'fifo', 'ctor', 'sorted')}
+            'rule-fifo': ('full', 3, 'fifo', 'ctor', 'sorted'),
+            'filter-forms': ('full', 3, 'filter-forms', 'same', 'sorted'),
+            'filter-forms-pairs': ('full', 2, 'filter-pairs', 'ctor',
+                                   'sorted')}
 
 
 def _spec(spec):
@@ -1404,6 +1558,9 @@ def part_params(spec):
                                   LINK_NAME: 'dangling symbolic link'}
     if family == 'fifo':
         out['rule_path_' + FIFO_RULE] = 'a FIFO next to r'
+    if family.startswith('filter-'):
+        used = sorted({r[3] for rs in rule_sets(family) for r in rs})
+        out['filter_given_as'] = {f: FILTER_FORMS[f] for f in used}
     return out
 
 
@@ -1511,7 +1668,12 @@ def calibrate():
               ('a.x', 'c/', 'd/', 'c/b.x', 'd/b.x'))
     probe_s = (('a.x', 'd/', FIFO_NAME, 'd/' + LINK_NAME),
                (('r', (), 0), (FIFO_RULE, (), 0)), (1, 1, 'ctor', 'ctor'), 0)
-    for case in (probe, probe3, probe_s):
+    probe_f = (('a.x', 'a.y', 'd/', 'd/b.x'),
+               (('r', ('.x',), 0, 'recycled'), ('r/d', (), 1, 'recycled')),
+               (1, 1, 'ctor', 'ctor'), 0)
+    probe_g = (('a.x', 'c'), (('r', ('.x', '.y'), 1, 'iter'),),
+               (0, 0, 'ctor', 'ctor'), 0)
+    for case in (probe, probe3, probe_s, probe_f, probe_g):
         outs = []
         for _ in range(2):
             mv, bv, hits, calls = execute(case)
@@ -1541,7 +1703,11 @@ REQUIRED = dict(nested_conflict_layered=1, replace_without_nest=1,
                 special_entry_in_subdirectory=1,
                 special_entry_next_to_regular_file=1,
                 special_entry_alone_in_directory=1,
-                special_entry_rejected_by_filter=1)
+                special_entry_rejected_by_filter=1,
+                **{'filter_given_as_' + f: 1 for f in FILTER_CLASS},
+                **{'filter_alias_would_show_' + f: 1
+                   for f, c in FILTER_CLASS.items()
+                   if c != 'other_container'})
 # shortcuts that can only be counted on cases that pass; when the clause
 # itself is violated on every such case the violation is the evidence
 REQUIRED_UNLESS_VIOLATED = dict(
